@@ -419,6 +419,11 @@ func Mutations(node interface{}, s Site, bomb bool) []Mutation {
 			if bomb {
 				add("wrapped-prefix-ffffffff", append(u32(0xffffffff), inner...))
 				add("wrapped-prefix-2^26", append(u32(1<<26), inner...))
+				// counts that wrap a 32-bit product with a small element size: ceil(2^32/k)
+				for k := uint64(2); k <= 64; k++ {
+					v := ((uint64(1) << 32) + k - 1) / k
+					add(fmt.Sprintf("wrapped-prefix-ceil(2^32/%d)", k), append(u32(uint32(v)), inner...))
+				}
 			}
 		}
 		add("type-uint", uint64(0))
